@@ -170,6 +170,23 @@ func peerName(x string) string {
 	return "a"
 }
 
+// vDeliverEvent hands bytes read from the control connection to the session the way the connection handler does: in ITS
+// read buffer, which is used again for the next traffic as soon as the handler returns (here: overwritten at once)
+var vDeliverBuf []byte
+
+func vDeliverEvent(s *Session, m []byte) error {
+	if cap(vDeliverBuf) < len(m) {
+		vDeliverBuf = make([]byte, 2*len(m)+64)
+	}
+	b := vDeliverBuf[:len(m)]
+	copy(b, m)
+	err := s.onEventData(b, &c13Conn{})
+	for i := range b {
+		b[i] = 0xDD
+	}
+	return err
+}
+
 // deliver everything x wrote on its control connection to the peer's event handler, in order
 func (c *c06Run) deliver(x string) {
 	e, p := c.ends[x], c.ends[peerName(x)]
@@ -182,7 +199,7 @@ func (c *c06Run) deliver(x string) {
 	e.taken = len(e.conn.wr)
 	e.conn.mu.Unlock()
 	for _, m := range msgs {
-		p.s.onEventData(m, &c13Conn{})
+		vDeliverEvent(p.s, m)
 	}
 }
 
